@@ -7,5 +7,6 @@ CONSTANTS
   PublishAtomic = TRUE
   UnrefIsValid = FALSE
   InitMayFail = FALSE
+  IsValidSync = FALSE
 SYMMETRY Sym
 INVARIANTS TypeOK NoRace Mutex OnceOnly InitComplete InitVisible RefBalance StateIffCount UseValid FullLength Distinct CreateOk Final
